@@ -863,6 +863,26 @@ impl Engine {
             Ok(v) => viols = v,
             Err(()) => viols.push(("C01", "translate|panics".into(), String::new())),
         }
+        if let Impl::Recursive(ri) = self.cfg.imp {
+            // C20 (dynamic): translate / translate_addr / translate_page may reach only the recursive addresses of the tables
+            // of the probed pages, computed with the recursive index the mapper was given
+            let r = ri as u64;
+            let va4 = |a: u64, b: u64, c: u64, d: u64| sext(a << 39 | b << 30 | c << 21 | d << 12);
+            let ix = |va: u64, l: u8| idx(va, l) as u64;
+            let mut allowed: HashSet<u64> = HashSet::new();
+            for &a in probes.iter().chain(pages.iter().map(|(_, a)| a)) {
+                allowed.insert(va4(r, r, r, ix(a, 4)));
+                allowed.insert(va4(r, r, ix(a, 4), ix(a, 3)));
+                allowed.insert(va4(r, ix(a, 4), ix(a, 3), ix(a, 2)));
+            }
+            let touched: Vec<u64> = s.last_win[..s.nlast].to_vec();
+            let rep = self.reps.get_mut("C20").unwrap();
+            rep.evals += touched.len() as u64;
+            rep.nontrivial += touched.len() as u64;
+            if let Some(t) = touched.iter().find(|t| !allowed.contains(t)) {
+                viols.push(("C20", "translate*|touches-an-address-that-is-not-a-recursive-table-address-of-a-probed-page".into(), format!("touched {:#x} (recursive index {})", t, r)));
+            }
+        }
         if s.nstray > 0 {
             let x = s.strays[0];
             let what = ["non-table-frame-of-the-window", "physical-memory-outside-the-page-tables", "not-present-window-address", "wild-address"][x.kind as usize];
